@@ -442,7 +442,7 @@ func totChild() {
 			w = newTotWorld(p.Cfg)
 			worlds[p.Cfg] = w
 		}
-		t0 := time.Now()
+		t0 := selfCPU()
 		outcome, msg := w.exec(p)
 		if outcome != "ok" {
 			delete(worlds, p.Cfg) // the package may be left in a half-built state
@@ -451,7 +451,7 @@ func totChild() {
 		if len(msg) > 200 {
 			msg = msg[:200]
 		}
-		fmt.Fprintf(out, "D %d %s %d %s\n", i, outcome, time.Since(t0).Milliseconds(), msg)
+		fmt.Fprintf(out, "D %d %s %d %s\n", i, outcome, (selfCPU() - t0).Milliseconds(), msg)
 		out.Flush()
 		i++
 	}
@@ -498,6 +498,37 @@ type totResult struct {
 }
 
 // totRunBatch runs points in one child; returns results for the points it finished and the index where it died (-1 = none).
+// selfCPU is the CPU time this process has used (user + system): the cost of an operation is measured in CPU time so that a
+// loaded machine does not make operations look slow
+func selfCPU() time.Duration {
+	var ru syscall.Rusage
+	syscall.Getrusage(syscall.RUSAGE_SELF, &ru)
+	return time.Duration(ru.Utime.Nano() + ru.Stime.Nano())
+}
+
+// procCPU is the CPU time used so far by a process and the children it has waited for (/proc/<pid>/stat, 100 ticks per second)
+func procCPU(pid int) time.Duration {
+	b, err := os.ReadFile(fmt.Sprintf("/proc/%d/stat", pid))
+	if err != nil {
+		return 0
+	}
+	st := string(b)
+	if i := strings.LastIndex(st, ")"); i >= 0 {
+		st = st[i+1:]
+	}
+	f := strings.Fields(st) // f[0] is the state: utime, stime, cutime, cstime are fields 14-17 of the line = f[11..14]
+	if len(f) < 15 {
+		return 0
+	}
+	var ticks int64
+	for _, x := range f[11:15] {
+		var v int64
+		fmt.Sscan(x, &v)
+		ticks += v
+	}
+	return time.Duration(ticks) * 10 * time.Millisecond
+}
+
 func totRunBatch(points []totPoint, perOp time.Duration) ([]totResult, int, string) {
 	exe, _ := os.Executable()
 	cmd := exec.Command(exe, "C17", "emit")
@@ -535,6 +566,9 @@ func totRunBatch(points []totPoint, perOp time.Duration) ([]totResult, int, stri
 	}()
 	died, why := -1, ""
 	cur := -1
+	// the deadline is about the operation, not about the machine: when the worker (with the children it waited for) has used
+	// little CPU since its last answer, it is being starved by other load and gets more time (hard cap 15 deadlines)
+	lastLine, lastCPU := time.Now(), procCPU(cmd.Process.Pid)
 loop:
 	for {
 		select {
@@ -542,6 +576,7 @@ loop:
 			if !ok {
 				break loop
 			}
+			lastLine, lastCPU = time.Now(), procCPU(cmd.Process.Pid)
 			f := strings.SplitN(l, " ", 5)
 			switch f[0] {
 			case "S":
@@ -556,6 +591,9 @@ loop:
 				cur = -1
 			}
 		case <-time.After(perOp):
+			if used := procCPU(cmd.Process.Pid) - lastCPU; used < perOp/2 && time.Since(lastLine) < 15*perOp {
+				continue
+			}
 			cmd.Process.Kill()
 			died, why = cur, fmt.Sprintf("no answer within %v (non-termination or runaway allocation)", perOp)
 			break loop
@@ -708,7 +746,7 @@ func runC17(tier, replay string) {
 				run.Infra(fmt.Errorf("worker died on %v but the point survives alone: %s", p, r.msg))
 			default:
 				if r.ms > 5000 {
-					report(p, "slow-operation", fmt.Sprintf("took %d ms", r.ms))
+					report(p, "slow-operation", fmt.Sprintf("took %d ms of CPU time", r.ms))
 				}
 			}
 		}
